@@ -20,6 +20,7 @@ TRIAGE = [
     (r'^ondense-merge-cmp', None, 'outside the claim: remainder loops of the online merge kernel (closing-sample bookkeeping); only operand order is decided there'),
     (r'^hor-ltl-(delete-LtlHorizon\.visit(Strong)?Next|plus-visit(Strong)?Next|minmax-visit(Strong)?Next)$', EQ, 'LtlHorizon.visitNext/visitStrongNext are overridden by StlHorizon since the sampling-period repair'),
     (r'^revert-fix-210c934$', EQ, 'the LtlHorizon handlers this commit repaired are overridden by StlHorizon since the sampling-period repair'),
+    (r'^seeded-C01-j-sliding-extremum-pops-equal$', None, 'outside the interpreted idioms: a monotonic-queue sliding extremum (candidates kept in a deque, evicted by value). Seven checks stop with exit 2 (window not in an interpreted idiom) -- no verdict; deciding it needs the queue invariant, not index arithmetic'),
     (r'^past-(stl|ltl)-delete-', EQ, 'for C03: the other pastifier class in the MRO still handles the node (LTL style delays with a chain of prev: same values for i >= h)'),
 ]
 out = {}
